@@ -2090,11 +2090,29 @@ def run_instance(job):
     if _ENG is None or _ENG.mod is not _MOD:
         _ENG = Engine(_MOD)
     eng = _ENG
-    eng.reset(job.get('params', ()), job.get('limits'), job.get('concrete_inputs'))
-    eng.forced = tuple(job.get('decisions', ()))
-    eng.budget_s = job.get('budget_s')
+    res = None
+    for attempt in (0, 1):
+        eng.reset(job.get('params', ()), job.get('limits'), job.get('concrete_inputs'))
+        eng.forced = tuple(job.get('decisions', ()))
+        eng.budget_s = job.get('budget_s')
+        try:
+            res = eng.explore('@' + job['harness'])
+            if attempt == 1:
+                res['retried'] = first_error
+            break
+        except Exception as e:
+            # an internal error of the engine: retry once with a fresh engine object (fresh global image and caches);
+            # a second failure is reported as inconclusive, never as a pass
+            import traceback
+            first_error = '%r %s' % (e, traceback.format_exc()[-1200:])
+            if attempt == 0:
+                _ENG = Engine(_MOD)
+                eng = _ENG
+                continue
+            res = None
     try:
-        res = eng.explore('@' + job['harness'])
+        if res is None:
+            raise RuntimeError(first_error)
     except Exception as e:  # engine bug: never a pass
         import traceback
         res = {'status': 'inconclusive', 'reason': 'engine exception: %r\n%s' % (e, traceback.format_exc()[-1500:]),
